@@ -607,6 +607,10 @@ def c03_cases(res):
     cfgs.append(("usermask", Config(users=[dict(name="zed", nick="zed", password=None, mask="zed!*@10.*")])))
     cfgs.append(("usermaskok", Config(password="secret1",
                                       users=[dict(name="zed", nick="zed", password="topsecret", mask="z*!~zed@127.0.0.?")])))
+    # several configured users, one user name defined twice before the one that is probed: each configured user is held to ITS OWN
+    # password and mask (seeded C03-i: the index of a configured user was computed over a filtered list)
+    cfgs.append(("userdup", Config(users=[dict(name="acct", nick="acct", password=None, mask=None), dict(name="acct", nick="acct2", password=None, mask=None),
+                                          dict(name="zed", nick="zed", password="topsecret", mask=None), dict(name="last", nick="last", password="lastpw", mask=None)])))
     prefixes = [[], ["PASS secret1"], ["PASS topsecret"], ["PASS wrongpw"], ["NICK zed"], ["USER zed 8 * :Z"],
                 ["CAP LS 302", "NICK zed", "USER zed 8 * :Z"], ["PASS secret1", "NICK zed"], ["PASS topsecret", "USER zed 8 * :Z"],
                 ["CAP LS 302"], ["NICK bob"], ["USER zed 8 * :Z", "NICK bob"],
@@ -619,6 +623,8 @@ def c03_cases(res):
         for pi, pre in enumerate(prefixes):
             probes = ALL_VERB_LINES if res.tier == "thorough" or True else ALL_VERB_LINES
             for li, probe in enumerate(probes):
+                if cname == "userdup" and (pi not in (0, 2, 3, 8) or probe not in ("JOIN #a", "WHO *")):
+                    continue
                 if res.tier == "quick" and (k * 7 + li) % 3 != 0 and probe not in ("JOIN #a", "PRIVMSG bob :hi", "WHO *"):
                     k += 1
                     continue
@@ -643,6 +649,8 @@ def c03_cases(res):
     # registration refused half-way by a nickname collision that only shows at the end
     for cname, cfg in cfgs:
         for li, probe in enumerate(ALL_VERB_LINES):
+            if cname == "userdup" and probe != "JOIN #a":
+                continue
             if res.tier == "quick" and li % 4 != 0 and probe not in ("JOIN #a", "PRIVMSG bob :hi", "WHO *", "NICK zed", "MODE bob +i"):
                 continue
             for order in (0, 1):
@@ -942,6 +950,10 @@ def msg_oracle(t, steps):
                     if mine and mine[0] == "ERROR":
                         if got:
                             fails.append(("refused %s still delivered %r" % (verb, dict(got)), {"step": s["k"]}))
+                        # targets of plainly well-formed shape (status prefixes, '#' or '&', then letters, digits, dots, dashes; or a
+                        # plain nickname) are not a syntax error - for NOTICE no more than for PRIVMSG (seeded C10-i)
+                        if all(re.match(r"^(?:[~&@%+]*[#&][A-Za-z0-9._é-]+|[A-Za-z][A-Za-z0-9_-]*)$", x) for x in tl):
+                            fails.append(("%s to the well-formed target(s) %r is refused as malformed: %r" % (verb, tl, (s.get("out") or {}).get(str(ev[1]), [])[:1]), {"step": s["k"]}))
                     else:
                         if got != exp:
                             fails.append(("%s by %s: delivered %r, the audience rule gives %r" % (
@@ -1169,6 +1181,20 @@ def check_C10(res):
         t.line(2, "PRIVMSG %s :last" % ("robert" if k2 else "bob"))
         t.line(2, "WHOIS %s" % ("robert" if k2 else "bob"))
         sweep.append(t)
+    # "a NOTICE is never answered whatever its target": status-prefixed targets whose channel name has a dot, a non-ASCII letter, is a
+    # local channel, does not exist (seeded C10-i: NOTICE validated prefixed targets with the plain-channel rule)
+    t = Trace("c10-prefixed-targets", Config())
+    for c, nk in enumerate(["alice", "bob", "carol"]):
+        t.register(c, nk)
+    for chn in ("#dev.ops", "&loc.al", "#café"):
+        t.line(0, "JOIN " + chn)
+        t.line(1, "JOIN " + chn)
+        t.line(0, "MODE %s +v bob" % chn)
+    for verb in ("NOTICE", "PRIVMSG"):
+        for tg in ("@#dev.ops", "+#dev.ops", "@+#dev.ops", "@&loc.al", "+#café", "@#no.such", "#dev.ops,@#dev.ops", "@#dev.ops,bob,+&loc.al", "%#dev.ops", "~&#dev.ops"):
+            t.line(1, "%s %s :to %s" % (verb, tg, tg))
+            t.line(2, "%s %s :outsider to %s" % (verb, tg, tg))
+    sweep.append(t)
     r = l2_campaign(res, "C10", n, 45, prof, traces=sweep, oracle=lambda t, st: msg_oracle(t, st) + cfg_rank_oracle(t, st) + relay_oracle(t, st))
     res.coverage.update({
         "evaluations": r["steps"], "distinct_nontrivial": msg_distinct(r),
@@ -1486,6 +1512,26 @@ def c16_traces(res):
         t.line(1, "TOPIC #room")
         t.line(2, "LIST")
         t.meta = {"pre": True, "repeat": line}
+        traces.append(t)
+    # a JOIN refused by the quota creates nothing: the name stays free, the next joiner is its founder (seeded C16-i: the channel
+    # was born although its only JOIN was answered 405)
+    for k2, line in enumerate(["JOIN #new", "JOIN #one,#new", "JOIN #new,#pre,#newer"]):
+        t = Trace("c16-quota-%d" % k2, Config(max_joins=1, channels=[dict(name="#pre", topic="Pre", flags="nt")]))
+        t.register(0, "alice")
+        t.register(1, "bob")
+        t.register(2, "carol")
+        t.line(0, "JOIN #one")
+        t.line(0, line)
+        t.line(2, "LIST")
+        t.line(2, "NAMES #new")
+        t.line(1, "JOIN #new")
+        t.line(2, "NAMES #new")
+        t.line(1, "PART #new")
+        t.line(2, "LIST")
+        t.line(0, "QUIT :gone")
+        t.line(2, "JOIN #new")
+        t.line(2, "NAMES #new")
+        t.meta = {"pre": True, "quota": line}
         traces.append(t)
     # "give the configured ranks to the listed nicknames whenever these join": every subset of the five rank lists for one
     # nick (so: nicks listed in several lists), joining, leaving and joining again, next to a nick listed nowhere
@@ -1969,6 +2015,18 @@ def mode_oracle(t, steps):
                     cm.update(s)
                     continue
                 changed = [f for f in MODE_FIELDS if chp[f] != cha[f]]
+                # "lower ranks are answered with ERR_CHANOPRIVSNEEDED": one 482 for every letter of the command the member's rank does not
+                # suffice for (one sign group of flag and rank letters with a parameter for each rank letter; seeded C08-i: a refused
+                # +v / -v was met with silence)
+                mg = re.match(r"^[+-]([imtnsqaohv]+)((?: [^ :]+)*)$", m.group(2) or "")
+                if mg and actor in chp["users"] and len(mg.group(2).split()) >= sum(1 for x in mg.group(1) if x in "qaohv"):
+                    f0 = chp["users"][actor]
+                    want482 = sum(1 for x in mg.group(1) if not (rank_sufficient(x, f0) if x in "qaohv" else is_half_op(f0)))
+                    mine0 = (s.get("out") or {}).get(str(ev[1]), [])
+                    got482 = sum(1 for l in mine0 if numeric_of(l) == "482")
+                    if got482 != want482 and not (mine0 and numeric_of(mine0[0]) in ("ERROR", "461")):
+                        fails.append(("%s by %s (%r): %d letter(s) need a rank the member does not hold, answered with %d ERR_CHANOPRIVSNEEDED" % (
+                            ev[2], actor, f0, want482, got482), {"step": s["k"]}))
                 if actor not in chp["users"]:
                     if changed or anns:
                         fails.append(("%s by outsider %s changed %r / announced %r" % (ev[2], actor, changed, anns), {"step": s["k"]}))
